@@ -146,9 +146,14 @@ func (v *Validator) Middleware(h http.Handler) http.Handler {
 
 		h.ServeHTTP(wr, r)
 
+		status := wr.statusCode()
+		if status == 0 {
+			// The handler wrote neither a status nor a body: net/http answers 200.
+			status = http.StatusOK
+		}
 		if err = ValidateResponse(ctx, &ResponseValidationInput{
 			RequestValidationInput: requestValidationInput,
-			Status:                 wr.statusCode(),
+			Status:                 status,
 			Header:                 wr.Header(),
 			Body:                   io.NopCloser(bytes.NewBuffer(wr.bodyContents())),
 			Options:                &v.options,
